@@ -23,6 +23,10 @@ func checkC01(c *Ctx) {
 	ruleThresholdAgreement(c, "C01.c")
 	ruleOpenLiteralTypestate(c, "C01.d")
 	c.rule("C01.e", "list nesting accounting: the depth counter of Decoder.List is capped and balanced", 2)
+	c.rule("C01.f", "mailbox names: the encoder applies modified UTF-7 exactly where the decoder inverts it", 26)
+	ruleMailboxTransform(c, "C01.f")
+	c.rule("C01.g", "numbers: the parser's domain (strconv function, bitSize) is exactly the range of the type the number is delivered in", 5)
+	ruleNoNarrowing(c, "C01.g")
 	if list := c.P.Func("internal/imapwire", "Decoder", "List"); list != nil {
 		checkListGuard(c, "C01.e", list)
 	} else {
